@@ -586,4 +586,5 @@ def run(ctx):
 def replay(part, case):
     if part == "purity":
         return run_purity(case["name"], case["kind"], case["mode"]) or []
-    return hist.replay_history(FACTORY, case["init"], case["ops"])
+    return hist.replay_history(case.get("factory", FACTORY), case["init"],
+                               case["ops"])
